@@ -417,6 +417,15 @@ theorem hinv_run (ops : List Op) : ∀ s, HInv s → HInv (run s ops).1 := by
   | nil => intro s h; exact h
   | cons op ops ih => intro s h; exact ih _ (hinv_step s h op)
 
+/-! Reading guide (review B.3).  The history-machine theorems are of two kinds.  Inductive over every
+history: `C10_hist_close_once`, `C10_hist_close_exactly_once`, `C10_hist_final`, `C10_hist_served_closed`,
+`C10_serve_nil_iff_peer_close`, `C10_last_deadline_wins`, `C10_close_attempt_once`, `C10_tee_close_once`,
+`C10_write_deadline_cleared`.  One-step unfoldings of `step` that DOCUMENT the model (what the differential
+run validates against the code) and are not results: `C10_serve_returns`, `C10_serve_returns_expired`,
+`C10_hist_closed_error`, `C10_read_after`, `C10_deadline_while_serving`, `C10_tee_final`, `C10_dead_encoder`.
+That `Serve` RETURNS (does not hang) is not expressible in a sequential machine; it is
+`C10_serve_returns_when_peer_closed` about `SrvLts` (round E). -/
+
 open Hist in
 /-- **idempotent**: whatever the history, at most one closing tag is written … -/
 theorem C10_hist_close_once (serve : Bool) (ops : List Op) :
